@@ -1166,3 +1166,77 @@ def c05_replay_oracle(rows, fk):
         if f and not f["kind"].startswith("exempt"):
             return f
     return None
+
+
+# ------------------------------------------------------------------------------------------------ parts of the aggregate C19 / C14 checks
+def _part(prop_file, tier, seed, extra=None):
+    """compile Properties/<prop_file>.v of the sqlite layer; returns dict(ok, obligations, discharged, details)"""
+    bad = vflib.grep_forbidden(LAYER)
+    rc, out = vflib.build_layer(LAYER, targets=vflib.model_targets(LAYER) + ["Properties/%s.vo" % prop_file])
+    details = {"layer": LAYER, "file": "coq/%s/Properties/%s.v" % (LAYER, prop_file), "forbidden": bad}
+    if rc != 0 or bad:
+        details["build_log"] = out[-2000:]
+        return {"ok": False, "obligations": 0, "discharged": 0, "details": details}
+    r = vflib.compile_property(LAYER, prop_file)
+    unexpected = [a for a in r["axioms"] if a.split(".")[-1] not in {x.split(".")[-1] for x in vflib.AXIOM_ALLOW}]
+    details.update({"theorems": r["theorems"], "axioms": r["axioms"], "closed_under_global_context": r["closed"]})
+    ok = r["ok"] and not unexpected
+    if not r["ok"]:
+        details["log_tail"] = r["output"][-2000:]
+    res = {"ok": ok, "obligations": r["obligations"], "discharged": r["discharged"] if ok else 0, "details": details}
+    if extra and ok:
+        extra(res)
+    return res
+
+
+def c19_part(tier, seed):
+    """SQLite part of C19: name symmetry create vs drop as lemmas about gen (Properties/C19_sqlite.v); the lemmas speak about the
+    implementation through K-sql(sqlite), whose result on this run's cases is attached"""
+    def extra(res):
+        run = run_sqlite(tier, seed)
+        if "error" in run:
+            res["ok"] = False
+            res["details"]["error"] = run["error"]
+            return
+        k = run["ksql"]
+        res["details"]["K-sql(sqlite)"] = {"cases": k["cases"], "mismatches": len(k["mismatches"]), "unparsed": len(k["unparsed"]), "shard_errors": len(k["errors"])}
+        if k["mismatches"] or k["unparsed"] or k["errors"]:
+            res["ok"] = False
+    return _part("C19_sqlite", tier, seed, extra)
+
+
+def c14_part(tier, seed, prefix="app_"):
+    """SQLite part of C14: prefix equivariance of gen. Proved pieces: Properties/C14_sqlite.v; the whole-plan statement
+    (prefix_agrees) is evaluated inside Coq on every generated migration (validation, not proof)"""
+    def extra(res):
+        run = run_sqlite(tier, seed)
+        if "error" in run:
+            res["ok"] = False
+            res["details"]["error"] = run["error"]
+            return
+        d, per, idx_map = run["d"], run["per_shard"], run["idx_map"]
+        n_shards = (len(idx_map) + per - 1) // per
+        bad, errors = [], []
+
+        def one(s):
+            f = os.path.join(d, "prefix_%03d.v" % s)
+            open(f, "w").write("From VV.SQLITE Require Import Corr Prefix.\nFrom Cases Require cases_sql_%03d.\n"
+                               "Eval vm_compute in map (fun c => prefix_agrees %s (q_baseline c) (q_actions c)) cases_sql_%03d.cases.\n" % (s, sqlparse.gstr(prefix), s))
+            rc, out, _ = vflib.sh(["timeout", "900", "coqc", "-noglob"] + vflib.q_flags(LAYER) + ["-Q", d, "Cases", f], cwd=d, timeout=960)
+            return s, rc, out
+        from concurrent.futures import ThreadPoolExecutor
+        with ThreadPoolExecutor(max_workers=16) as ex:
+            for s, rc, out in ex.map(one, range(n_shards)):
+                if rc != 0:
+                    errors.append(out[-800:])
+                    continue
+                vals = vflib.parse_bool_list(vflib.parse_eval_outputs(out)[0])
+                bad += [idx_map[s * per + i] for i, v in enumerate(vals) if not v]
+        res["details"]["prefix_agrees"] = {"prefix": prefix, "cases": len(idx_map), "disagreements": len(bad), "first": bad[:3], "shard_errors": len(errors)}
+        k = run["ksql"]
+        res["details"]["K-sql(sqlite)"] = {"cases": k["cases"], "mismatches": len(k["mismatches"]), "unparsed": len(k["unparsed"]), "shard_errors": len(k["errors"])}
+        if bad or errors or k["mismatches"] or k["unparsed"] or k["errors"]:
+            res["ok"] = False
+            if bad:
+                res["details"]["first_disagreeing_input"] = {"history": history_of(run["rows"], bad[0])}
+    return _part("C14_sqlite", tier, seed, extra)
